@@ -145,6 +145,8 @@ def is_irreducible_rabin(a, p):
         return False
     if d == 1:
         return True
+    if a[0] == 0:
+        return False  # X divides a and deg a >= 2
     f = R.pmonic(a, p)
     x = R.pmod((0, 1), f, p)
     h = [x]  # h[i] = X^(p^i) mod f
